@@ -152,7 +152,9 @@ def run(tier, seed):
     if ob.get("verdict") == "violation":
         ce = ob.get("counterexample") or {}
         scen = None
-        if ce.get("catalogue_has_snapshot") and ce.get("last_applied") == 0:
+        if ce.get("catalogue_has_snapshot") and ce.get("older_snapshot_end") is not None and ce.get("last_applied", 0) > 0:
+            scen = "two_compactions_then_restart"   # an older snapshot is still in the catalogue
+        elif ce.get("catalogue_has_snapshot") and ce.get("last_applied") == 0:
             scen = "install_then_restart"      # state arrived by snapshot installation, nothing applied since
         elif ce.get("catalogue_has_snapshot") and 0 < ce.get("last_applied", 0) <= ce.get("snapshot_end", 0):
             scen = "compaction_then_restart"   # restart right behind a compaction
@@ -171,7 +173,7 @@ def run(tier, seed):
             ob["replay"] = {"path": path, "outcome": "model-only", "message": "index contents + emission sequence of the start-up chain (no node-level scenario of that shape)"}
     elif ob.get("verdict") == "discharged" and native_ok:
         # translator validation: the two node-level histories behind the oracle hold on a real node
-        val = native_scenarios("C01", "validate", ["compaction_then_restart", "install_then_restart"])
+        val = native_scenarios("C01", "validate", ["compaction_then_restart", "install_then_restart", "two_compactions_then_restart"])
         info["translator_validation_node"] = {"outcome": val["outcome"], "message": val["message"], "path": val["path"]}
         if val["outcome"] != "passed":
             obligations.append({"engine": "smt", "harness": "s01_node_validation", "verdict": "inconclusive", "queries": 0, "solver_s": 0,
